@@ -577,7 +577,12 @@ func runCheck(prop, tier string) int {
 				rs = append(rs, r)
 			}
 		}
-		sort.Slice(rs, func(i, j int) bool { return rs[i].paths > rs[j].paths })
+		sort.Slice(rs, func(i, j int) bool {
+			if rs[i].undecided != rs[j].undecided {
+				return rs[i].undecided > rs[j].undecided
+			}
+			return rs[i].paths > rs[j].paths
+		})
 		for i, r := range rs {
 			if i >= 5 {
 				break
